@@ -47,8 +47,8 @@ func (d *defaultPacketLogger) LogRTPPacket(header *rtp.Header, payload []byte, a
 	case d.rtpChan <- &rtpDump{
 		attributes: attributes,
 		packet: &rtp.Packet{
-			Header:  *header,
-			Payload: payload,
+			Header:  header.Clone(),
+			Payload: append([]byte(nil), payload...),
 		},
 	}:
 	case <-d.close:
